@@ -27,7 +27,19 @@ type Violation struct {
 	Case     json.RawMessage `json:"case"`
 	Detail   string          `json:"detail"`
 	Known    string          `json:"known,omitempty"` // id of the known finding whose predicate explains it
+	// Where the worker met the case (stamped by RunWorker): a failure that
+	// depends on what the process generated before cannot be reproduced from the
+	// case alone; its replay re-runs the shard up to the case.
+	Tier    string `json:"tier,omitempty"`
+	Shard   int    `json:"shard,omitempty"`
+	NShards int    `json:"nshards,omitempty"`
 }
+
+// stopAt: set during an in-context replay; Violate panics with stopSignal when
+// the wanted violation shows up, so that the shard is not run to its end.
+var stopAt func(v *Violation) bool
+
+type stopSignal struct{ v Violation }
 
 // Stats are the counters a worker accumulates; they are summed by the parent.
 type Stats struct {
@@ -100,6 +112,9 @@ func (s *Stats) Violate(v Violation) {
 		return
 	}
 	s.Violations = append(s.Violations, v)
+	if stopAt != nil && stopAt(&v) {
+		panic(stopSignal{v})
+	}
 }
 
 // Ctx is what a check's worker sees.
@@ -417,12 +432,38 @@ func RunReplay(path string) int {
 		return 2
 	}
 	r := ck.Replay(v.Case)
+	note := ""
+	if r == nil && v.NShards > 0 && ck.Worker != nil {
+		// The case passes in a fresh process. Re-run the shard the worker met it
+		// in, up to the case: the same generations in the same order.
+		r = replayInContext(ck, &v)
+		note = " [reproduced by re-running shard " + fmt.Sprint(v.Shard) + "/" + fmt.Sprint(v.NShards) + " up to the case: it passes in a fresh process, so the failure depends on what the process did before]"
+	}
 	if r == nil {
 		fmt.Println("replay: case passes")
 		return 0
 	}
-	fmt.Printf("replay: property=%s kind=%s known=%s detail=%s\n", r.Property, r.Kind, r.Known, oneLine(r.Detail, 2000))
+	fmt.Printf("replay: property=%s kind=%s known=%s detail=%s%s\n", r.Property, r.Kind, r.Known, oneLine(r.Detail, 2000), note)
 	return 1
+}
+
+func replayInContext(ck *Check, want *Violation) (found *Violation) {
+	c := &Ctx{ID: ck.ID, Tier: want.Tier, Seed: envInt("VERIF_SEED", 0), Shard: want.Shard, NShards: want.NShards, Start: time.Now()}
+	stopAt = func(v *Violation) bool {
+		return v.Property == want.Property && v.Kind == want.Kind && string(v.Case) == string(want.Case)
+	}
+	defer func() {
+		stopAt = nil
+		if x := recover(); x != nil {
+			if s, ok := x.(stopSignal); ok {
+				found = &s.v
+				return
+			}
+			panic(x)
+		}
+	}()
+	ck.Worker(c)
+	return nil
 }
 
 // RunWorker runs one shard and writes its Stats.
@@ -436,6 +477,9 @@ func RunWorker(id, tier string, shard, n int, out string) int {
 		c.Budget = time.Duration(b) * time.Second
 	}
 	flush := func() int {
+		for i := range c.Stats.Violations {
+			c.Stats.Violations[i].Tier, c.Stats.Violations[i].Shard, c.Stats.Violations[i].NShards = tier, shard, n
+		}
 		b, err := json.Marshal(&c.Stats)
 		if err != nil {
 			fmt.Fprintln(os.Stderr, err)
